@@ -41,6 +41,8 @@ ALPHABETS = [
     ["ck", "www", "x"],
     ["рф", "бел", "xn--p1ai"],
     ["ch", "firenet", "svc"],
+    ["x", "a-b", "9lives"],  # one letter, hyphen, leading digit
+    ["\U0001F34A", "ws", "a_b"],  # non-BMP label, underscore
 ]
 FOREIGN = "zz"
 FORMS = ["bare", "http", "schemeless", "upper", "dot", "split", "auth", "httpdot", "auth2", "dotport", "hostq", "hostfrag", "bareport", "wss", "baredslash"]
